@@ -1549,6 +1549,73 @@ func genScript(r *rand.Rand) string {
 
 // ---------------------------------------------------------------- suite
 
+
+// ---------------------------------------------------------------- C19: one script's run never leaks into another's
+
+// isoPolluters leave something behind in whatever Lua state they run in; isoProbe reports what it can see.
+var isoPolluters = []string{
+	`leak = 42 return {}`,
+	`string.marker = "x" return {}`,
+	`table.insert = nil return {}`,
+	`helper = function() return 1 end return {}`,
+	`setmetatable(_G, {__index = function() return "ghost" end}) return {}`,
+	`getmetatable("").__index.evil = 1 return {}`,
+	`obj_copy = obj weight_seen = obj.weight return {}`,
+	`math.floor = function() return 7 end return {}`,
+	`json_seen = 1 error("boom")`,
+}
+
+const isoProbe = `return {a = tostring(leak), b = tostring(string.marker), c = type(table.insert), d = tostring(helper),
+ e = tostring(undefined_xyz), f = tostring(("").evil), g = tostring(obj_copy), h = tostring(weight_seen), i = tostring(math.floor(2.5)),
+ j = tostring(json_seen), w = tostring(obj.weight)}`
+
+func isoObj(w int64) map[string]interface{} {
+	return map[string]interface{}{"weight": w, "annotations": map[string]interface{}{"a": "b"}}
+}
+
+func isoRun(obj map[string]interface{}, script string) string {
+	r := runBounded(obj, script)
+	return r.outcome + ":" + r.detail
+}
+
+// doIso: the probe alone, the probe after a polluter, and probes running while polluters run on other goroutines.
+func doIso(polluter string, conc int) interface{} {
+	solo := isoRun(isoObj(5), isoProbe)
+	_ = isoRun(isoObj(77), polluter)
+	after := isoRun(isoObj(5), isoProbe)
+	same := true
+	if conc > 0 {
+		var wg sync.WaitGroup
+		stop := make(chan struct{})
+		for w := 0; w < conc; w++ {
+			wg.Add(1)
+			go func() {
+				defer wg.Done()
+				for {
+					select {
+					case <-stop:
+						return
+					default:
+						_ = isoRun(isoObj(77), polluter)
+					}
+				}
+			}()
+		}
+		for i := 0; i < 40; i++ {
+			if isoRun(isoObj(5), isoProbe) != solo {
+				same = false
+			}
+		}
+		close(stop)
+		wg.Wait()
+	}
+	return J{"solo": solo, "after": after, "conc_same": same}
+}
+
+func emitIso(c *Ctx, polluter string, conc int) {
+	c.Emit("iso", J{"polluter": polluter, "conc": conc}, guard(func() interface{} { return doIso(polluter, conc) }))
+}
+
 func runLuaJSON(c *Ctx) {
 	r := c.Rng
 	n := c.N
@@ -1637,6 +1704,14 @@ func runLuaJSON(c *Ctx) {
 	for i := 0; i < nprobe; i++ {
 		emitProbe(c, genProbe(r))
 	}
+	// (d) isolation between runs (C19) ------------------------------------------
+	for i, p := range isoPolluters {
+		conc := 0
+		if i%3 == 0 || c.Thorough() {
+			conc = 3
+		}
+		emitIso(c, p, conc)
+	}
 	// (c) runtime behaviour ----------------------------------------------------
 	cases := hostileCorpus(c.Thorough())
 	nscr := n * 15 / 100
@@ -1668,6 +1743,10 @@ func replayLuaJSON(c *Ctx, op string, raw json.RawMessage) {
 		c.Emit("global", J{"name": str("name")}, hasGlobal(str("name")))
 	case "probe":
 		emitProbe(c, probe{kind: str("kind"), script: str("script"), content: str("content")})
+	case "iso":
+		n, _ := in["conc"].(json.Number)
+		k, _ := n.Int64()
+		emitIso(c, str("polluter"), int(k))
 	case "run":
 		_, stdin := in["stdin"]
 		runScripts(c, []scriptCase{{str("class"), str("script"), stdin}})
